@@ -39,6 +39,14 @@ def limit_cases():
         yield ("ops%d-deadarm" % n, O0 + IF + NOP * (n - 2) + ENDIF + O1, [], b"", [])
         yield ("ops%d-halfdead" % n, O1 + IF + NOP * 50 + ELSE + NOP * (n - 53) + ENDIF + O1, [], b"", [])
         yield ("ops%d-dup" % n, O1 + (DUP + DROP) * ((n - 1) // 2) + NOP * ((n - 1) % 2) + NOP, [], b"", [])
+    # opcodes in a branch that is not taken: OP_RESERVED (0x50) and OP_1NEGATE are below OP_16 and never counted; OP_VER, OP_RESERVED1/2,
+    # the upgradable NOPs and the unassigned opcodes are counted like any other operation
+    for n in (200, 201, 202):
+        for k in (1, 3):
+            yield ("ops%d-reserved%d" % (n, k), O0 + IF + b"\x50" * k + ENDIF + NOP * (n - 2) + O1, [], b"", [])
+            yield ("ops%d-1negate%d" % (n, k), O0 + IF + b"\x4f" * k + ENDIF + NOP * (n - 2) + O1, [], b"", [])
+        for x in (0x62, 0x89, 0x8a, 0xb0, 0xb9, 0xba, 0xbb, 0xfe, 0xff):
+            yield ("ops%d-unexec%02x" % (n, x), O0 + IF + bytes([x]) + ENDIF + NOP * (n - 3) + O1, [], b"", [])
     for nk in (0, 1, 3, 19, 20):
         for total in (200, 201, 202):
             pad = total - 1 - nk
